@@ -248,6 +248,83 @@ class ExtRef(Abs):
         return "ExtRef(%s)" % self.name
 
 
+class _GenAbort(BaseException):
+    pass
+
+
+class GenObj(Abs):
+    """A lazily evaluated generator of the interpreted program.  The body runs in its own thread,
+    strictly alternating with the consumer (one of them is always blocked), so the interpreter state
+    is never accessed concurrently."""
+
+    def __init__(self, it, node, env, ctx, name):
+        self.it, self.node, self.env, self.ctx, self.name = it, node, env, ctx, name
+        self.thread = None
+        self.done = False
+        self.abort = False
+        self.msg = None
+        it.generators.append(self)
+
+    def __repr__(self):
+        return "GenObj(%s)" % self.name
+
+    def _run(self):
+        try:
+            self.it.exec_block(self.node.body, self.env, self.ctx)
+            self.msg = ("return", None)
+        except _Return as r:
+            self.msg = ("return", r.value)
+        except _GenAbort:
+            self.msg = ("return", None)
+        except BaseException as ex:       # AbsRaise, Unsupported, analyser errors: re-raised in the consumer
+            self.msg = ("raise", ex)
+        self.ready.release()
+
+    def next(self):
+        import threading
+        if self.done:
+            raise AbsRaise("StopIteration", ())
+        if self.thread is None:
+            self.resume = threading.Semaphore(0)
+            self.ready = threading.Semaphore(0)
+            self.thread = threading.Thread(target=self._run, daemon=True)
+            self.thread.start()
+        else:
+            self.resume.release()
+        self.ready.acquire()
+        kind, val = self.msg
+        if kind == "yield":
+            return val
+        self.done = True
+        if kind == "return":
+            raise AbsRaise("StopIteration", (val,))
+        raise val
+
+    def do_yield(self, v):
+        self.msg = ("yield", v)
+        self.ready.release()
+        self.resume.acquire()
+        if self.abort:
+            raise _GenAbort()
+
+    def close(self):
+        if self.thread is not None and not self.done:
+            self.abort = True
+            self.done = True
+            self.resume.release()
+            self.thread.join(timeout=5)
+
+    def drain(self):
+        out = []
+        while True:
+            try:
+                out.append(self.next())
+            except AbsRaise as ex:
+                if ex.cls_name == "StopIteration":
+                    return out
+                raise
+
+
 class Env(object):
     __slots__ = ("vars", "parent")
 
@@ -302,6 +379,14 @@ class Explorer(object):
         self.pos = 0
         self.trace = []
         self.pending = []
+        self.interps = []
+
+    def _cleanup(self):
+        for it in self.interps:
+            for g in it.generators:
+                g.close()
+            it.generators = []
+        self.interps = []
 
     def decide(self, cond, where=""):
         """cond: term tuple (symbolic) or a string description.  Returns the branch taken."""
@@ -352,7 +437,10 @@ class Explorer(object):
             self.pos = 0
             self.trace = []
             try:
-                v = fn(self)
+                try:
+                    v = fn(self)
+                finally:
+                    self._cleanup()
                 results.append(PathResult(list(self.trace), "return", v))
             except AbsRaise as ex:
                 results.append(PathResult(list(self.trace), "raise", ex))
@@ -390,6 +478,9 @@ class Interp(object):
         self.max_loop = max_loop
         self.depth = 0
         self.modcache = {}
+        self.generators = []
+        if hasattr(explorer, "interps"):
+            explorer.interps.append(self)
 
     # ------------------------------------------------------------------ helpers
     def unsupported(self, what, node=None):
@@ -556,7 +647,9 @@ class Interp(object):
         if isinstance(node, ast.Lambda):
             return self.eval(node.body, env, ctx)
         if _is_generator(node):
-            return self.run_generator(node, env, ctx)
+            g = GenObj(self, node, env, ctx, f.name)
+            env.vars["__gen__"] = g
+            return g
         self.depth += 1
         try:
             self.exec_block(node.body, env, ctx)
@@ -779,7 +872,20 @@ class Interp(object):
             raise AbsRaise(type(ex).__name__, ex.args)
 
     # ------------------------------------------------------------------ iteration
+    def gen_iter(self, g):
+        while True:
+            try:
+                yield g.next()
+            except AbsRaise as ex:
+                if ex.cls_name == "StopIteration":
+                    return
+                raise
+
     def iterate(self, v, node=None):
+        if isinstance(v, GenObj):
+            return v.drain()
+        if isinstance(v, ListIter):
+            return v.rest()
         if isinstance(v, (list, tuple, set, frozenset, str, range)):
             return list(v)
         if isinstance(v, dict):
@@ -842,7 +948,8 @@ class Interp(object):
                 self.exec_block(st.orelse, env, ctx)
             return
         if t is ast.For:
-            items = self.iterate(self.eval(st.iter, env, ctx), st)
+            src = self.eval(st.iter, env, ctx)
+            items = self.gen_iter(src) if isinstance(src, GenObj) else self.iterate(src, st)
             broke = False
             for it in items:
                 self.assign(st.target, it, env, ctx)
@@ -951,7 +1058,10 @@ class Interp(object):
         if isinstance(typ_val, ExtRef):
             want = typ_val.name.split(".")[-1]
             have = ex.cls_name
-            if have == want:
+            if have == want or want == "BaseException":
+                return True
+            if want == "Exception" and have not in ("KeyboardInterrupt", "SystemExit", "GeneratorExit") and \
+                    (have not in BUILTIN_EXC or issubclass(BUILTIN_EXC[have], Exception)):
                 return True
             if want in BUILTIN_EXC and have in BUILTIN_EXC:
                 return issubclass(BUILTIN_EXC[have], BUILTIN_EXC[want])
@@ -1144,10 +1254,18 @@ class Interp(object):
                     parts.append(self.to_str(x, n))
             return self.concat_str(parts, n)
         if t is ast.Yield:
-            hit, lst = env.lookup("__yield__")
+            hit, g = env.lookup("__gen__")
             if not hit:
                 self.unsupported("yield outside generator", n)
-            lst.append(self.eval(n.value, env, ctx) if n.value is not None else None)
+            g.do_yield(self.eval(n.value, env, ctx) if n.value is not None else None)
+            return None
+        if t is ast.YieldFrom:
+            hit, g = env.lookup("__gen__")
+            if not hit:
+                self.unsupported("yield from outside generator", n)
+            src = self.eval(n.value, env, ctx)
+            for x in (self.gen_iter(src) if isinstance(src, GenObj) else self.iterate(src, n)):
+                g.do_yield(x)
             return None
         if t is ast.Starred:
             self.unsupported("starred expression", n)
@@ -1630,15 +1748,51 @@ def _b_minmax(which):
     return f
 
 
+class ListIter(Abs):
+    """iter() over a finite sequence, with position"""
+
+    def __init__(self, items):
+        self.items = list(items)
+        self.pos = 0
+
+    def next(self):
+        if self.pos >= len(self.items):
+            raise AbsRaise("StopIteration", ())
+        self.pos += 1
+        return self.items[self.pos - 1]
+
+    def rest(self):
+        r = self.items[self.pos:]
+        self.pos = len(self.items)
+        return r
+
+
 def _b_next(it, a, k):
-    items = it.iterate(a[0])
+    v = a[0]
+    if isinstance(v, (GenObj, ListIter)):
+        try:
+            return v.next()
+        except AbsRaise as ex:
+            if ex.cls_name == "StopIteration" and len(a) > 1:
+                return a[1]
+            raise
+    if it.domain is not None:
+        hit, r = it.domain.call(it, ExtRef("builtins.next"), a, k)
+        if hit:
+            return r
+    items = it.iterate(v)
     if not items:
+        if len(a) > 1:
+            return a[1]
         raise AbsRaise("StopIteration", ())
     return items[0]
 
 
 def _b_iter(it, a, k):
-    return it.iterate(a[0])
+    v = a[0]
+    if isinstance(v, (GenObj, ListIter)):
+        return v
+    return ListIter(it.iterate(v))
 
 
 def _b_id(it, a, k):
